@@ -1072,7 +1072,9 @@ pub fn ref_instr2(s0: &StateSpec, name: &str) -> Expect {
                 s.output.push(MsgSpec { header, body });
                 fired(s)
             } else {
-                Expect::Unspecified("OUTPUT.WRITE on a full queue")
+                // full queue: a plain push is ignored, no queued message may be lost or replaced;
+                // whether the operands are consumed is unspecified
+                Expect::either(s, s0.clone())
             }
         }
         // ------------------------------------------------------------------ LIST (L)
